@@ -197,6 +197,26 @@ def c13_pda_m3(t: T15, m: int, finals: int) -> bool:
     return _run_pda("c13_pda_m3", raw, trans, fin, 0, 0)
 
 
+B7 = Tuple[int, int, int, int, int, int, int]
+
+
+def c13_pda_push3(q: B7, i4: int, finals: int) -> bool:
+    """
+    pre: pinned(finals=finals, s1=q[0], p2=q[1], s2=q[2])
+    pre: enc.in_range(q, 2) & ((0 <= i4) & (i4 < 2)) & ((0 <= finals) & (finals < 4))
+    post: _
+    """
+    # a push of three symbols whose pops happen in symbolic states:
+    #   (0, a, Z) -> (s1, X X Z);  (p2, b, X) -> (s2, eps);  (p3, b, X) -> (s3, eps);  (p4, eps|a, Z) -> (s4, eps)
+    raw = (q, i4, finals)
+    s1, p2, s2, p3, s3, p4, s4 = [enc.pick(x, 2) for x in q]
+    trans = [(0, 1, 0, s1, 4), (p2, 2, 1, s2, 0), (p3, 2, 1, s3, 0), (p4, enc.pick(i4, 2), 0, s4, 0)]
+    if (p2, s2) == (p3, s3):
+        trans.pop(2)
+    fin = enc.mask_members(finals, 2)
+    return _run_pda("c13_pda_push3", raw, trans, fin, 0, 0)
+
+
 def _sh_cfg2(tier):
     return [{"p": 0}, {"p": 1}] + product_pins(p=[2], h0=[0, 1], l0=[0, 1, 2])
 
@@ -248,4 +268,10 @@ CONDS = [
     Cond("C13", c13_pda_m3, _sh_m3,
          {"thorough": "3 transitions (first from (0,Z)), input {eps,a}, final masks {1},{0,1}"},
          FUNCS, RULE, assumptions=ASSUME, tiers=("thorough",)),
+    Cond("C13", c13_pda_push3, lambda tier: product_pins(finals=[2, 3] if tier == "quick" else [0, 1, 2, 3],
+                                                         s1=[0, 1], p2=[0, 1], s2=[0, 1]),
+         {"quick": "(0,a,Z)->(s1,XXZ), (p2,b,X)->(s2,eps), (p3,b,X)->(s3,eps), (p4,eps|a,Z)->(s4,eps) with all seven "
+                   "states symbolic in {0,1}: a push of three symbols popped in different states; finals {1} / {0,1}",
+          "thorough": "all final masks"},
+         FUNCS, RULE, assumptions=ASSUME),
 ]
